@@ -45,7 +45,7 @@ impl AsyncWrite for FaultIo {
 
 #[derive(Default)]
 struct View { status: String, got: Vec<u64>, in_call: bool, lastres: String, queued: usize }
-enum Cmd { Next, Finish, NextCancelled, Via(Arc<Mutex<View>>) }
+enum Cmd { Next, Finish, NextCancelled, Via(Arc<Mutex<View>>, usize) }
 
 pub fn response_bytes(mid: i64, kind: &str, tok: u64) -> Vec<u8> {
     let t = tok.to_string();
@@ -172,8 +172,11 @@ async fn run_script(steps: Vec<String>) -> (String, Option<String>) {
                                             break;
                                         }
                                         // an operation issued through the stream's own handle (SearchStream::ldap_handle())
-                                        Cmd::Via(v2) => {
-                                            let r = st.ldap_handle().delete("cn=x").await.map(|r| format!("ok:{}", r.text));
+                                        Cmd::Via(v2, opno) => {
+                                            let r = match opno % 3 {
+                                                1 => st.ldap_handle().simple_bind("cn=u", "pw").await.map(|r| format!("ok:{}", r.text)),
+                                                2 => st.ldap_handle().compare("cn=x", "cn", "v").await.map(|r| format!("ok:{}", r.0.text)),
+                                                _ => st.ldap_handle().delete("cn=x").await.map(|r| format!("ok:{}", r.text)) };
                                             v2.lock().unwrap().status = match r { Ok(s) => s, Err(e) => format!("err:{}", err_class(&e)) };
                                         }
                                     }
@@ -229,7 +232,7 @@ async fn run_script(steps: Vec<String>) -> (String, Option<String>) {
                 let ready = match (views.get(o), cmds.get(o)) { (Some(v), Some(Some(_))) => { let v = v.lock().unwrap(); (v.status == "active" || v.status == "done" || v.status == "error") && !v.in_call && v.queued == 0 } _ => false };
                 if ready {
                     let v2 = Arc::new(Mutex::new(View { status: "pending".into(), lastres: "-".into(), ..Default::default() }));
-                    if cmds[o].as_ref().unwrap().send(Cmd::Via(v2.clone())).is_ok() {
+                    if cmds[o].as_ref().unwrap().send(Cmd::Via(v2.clone(), views.len() + 1)).is_ok() {
                         views[o].lock().unwrap().queued += 1;
                         views.push(v2); kinds.push("single".into()); gates.push(None); cmds.push(None);
                         sent_at_start.push(results_by_id.get(&(views.len() as i64)).copied().unwrap_or(0));
